@@ -159,22 +159,35 @@ fn permutations(n: usize) -> Vec<Vec<usize>> {
 /// positive count or a negative count followed by its byte size, all map entry orders.
 /// `complete` is cleared if `cap` truncated the enumeration.
 pub fn layouts(v: &V, s: &S, env: &Env, cap: usize, complete: &mut bool) -> Vec<Vec<u8>> {
+    layouts_n(v, s, env, cap, complete, 0)
+}
+
+/// `nest` = number of enclosing arrays/maps. The outermost collection gets every partition, sign
+/// and order; a collection nested inside another one gets the representative set of
+/// `long_block_layouts` (a stated reduction that keeps the product finite and small).
+fn layouts_n(v: &V, s: &S, env: &Env, cap: usize, complete: &mut bool, nest: usize) -> Vec<Vec<u8>> {
     let s = s.deref(env);
     match (v, s) {
         (V::Union(i, b), S::Union(br)) => {
-            let inner = layouts(b, &br[*i], env, cap, complete);
+            let inner = layouts_n(b, &br[*i], env, cap, complete, nest);
             product(vec![long_bytes(*i as i64)], &inner, cap, complete)
         }
         (V::Record(vals), S::Record { fields, .. }) => {
             let mut acc = vec![vec![]];
             for (f, x) in fields.iter().zip(vals) {
-                let opts = layouts(x, &f.ty, env, cap, complete);
+                let opts = layouts_n(x, &f.ty, env, cap, complete, nest);
                 acc = product(acc, &opts, cap, complete);
             }
             acc
         }
         (V::Array(a), S::Array(it)) => {
-            let items: Vec<Vec<Vec<u8>>> = a.iter().map(|x| layouts(x, it, env, cap, complete)).collect();
+            let items: Vec<Vec<Vec<u8>>> = a.iter().map(|x| layouts_n(x, it, env, cap, complete, nest + 1)).collect();
+            if nest >= 1 && !items.is_empty() {
+                let mut l = long_block_layouts(&items);
+                l.sort();
+                l.dedup();
+                return l;
+            }
             block_layouts(&items, cap, complete)
         }
         (V::Map(m), S::Map(vt)) => {
@@ -183,11 +196,20 @@ pub fn layouts(v: &V, s: &S, env: &Env, cap: usize, complete: &mut bool) -> Vec<
                 .map(|(k, x)| {
                     let mut key = vec![];
                     put_bytes(k.as_bytes(), &mut key);
-                    product(vec![key], &layouts(x, vt, env, cap, complete), cap, complete)
+                    product(vec![key], &layouts_n(x, vt, env, cap, complete, nest + 1), cap, complete)
                 })
                 .collect();
+            if nest >= 1 && !entries.is_empty() {
+                let mut l = long_block_layouts(&entries);
+                let rev: Vec<Vec<Vec<u8>>> = entries.iter().rev().cloned().collect();
+                l.extend(long_block_layouts(&rev));
+                l.sort();
+                l.dedup();
+                return l;
+            }
             let mut out = vec![];
-            for perm in permutations(entries.len()) {
+            let perms = if entries.len() <= 4 { permutations(entries.len()) } else { vec![(0..entries.len()).collect(), (0..entries.len()).rev().collect()] };
+            for perm in perms {
                 let permuted: Vec<Vec<Vec<u8>>> = perm.iter().map(|&i| entries[i].clone()).collect();
                 out.extend(block_layouts(&permuted, cap, complete));
                 if out.len() >= cap {
@@ -212,13 +234,23 @@ fn block_layouts(items: &[Vec<Vec<u8>>], cap: usize, complete: &mut bool) -> Vec
     if n == 0 {
         return vec![vec![0]];
     }
+    if n > 6 {
+        return long_block_layouts(items);
+    }
     let mut out = vec![];
     // partition mask: bit i set = a block boundary after item i (i < n-1)
-    for mask in 0..(1u32 << (n - 1)) {
+    // exhaustive for n <= 6; longer collections get four representative partitions
+    // (one block, one item per block, split in the middle, first item alone)
+    let masks: Vec<u128> = if n <= 6 {
+        (0..(1u128 << (n - 1))).collect()
+    } else {
+        vec![0, (1u128 << (n - 1)) - 1, 1u128 << (n / 2), 1]
+    };
+    for mask in masks {
         let mut blocks: Vec<(usize, usize)> = vec![];
         let mut start = 0;
         for i in 0..n {
-            if i == n - 1 || mask & (1 << i) != 0 {
+            if i == n - 1 || mask & (1u128 << i) != 0 {
                 blocks.push((start, i + 1));
                 start = i + 1;
             }
@@ -250,6 +282,43 @@ fn block_layouts(items: &[Vec<Vec<u8>>], cap: usize, complete: &mut bool) -> Vec
                 *complete = false;
                 return out;
             }
+        }
+    }
+    out
+}
+
+/// Collections longer than 6 items: four representative partitions (one block, one item per block,
+/// split in the middle, first item alone), each with all-positive and all-negative counts; items
+/// use their first alternative. A stated reduction, not a cap.
+fn long_block_layouts(items: &[Vec<Vec<u8>>]) -> Vec<Vec<u8>> {
+    let n = items.len();
+    let mut cuts: Vec<Vec<usize>> = vec![vec![n], (1..=n).collect(), vec![n / 2, n], vec![1, n]];
+    for c in cuts.iter_mut() {
+        // no empty blocks: block ends must be strictly increasing and positive
+        c.retain(|&e| e > 0);
+        c.dedup();
+    }
+    cuts.sort();
+    cuts.dedup();
+    let mut out = vec![];
+    for ends in cuts {
+        for negative in [false, true] {
+            let mut x = vec![];
+            let mut start = 0;
+            for &end in &ends {
+                let body: Vec<u8> = items[start..end].iter().flat_map(|alts| alts[0].clone()).collect();
+                let count = (end - start) as i64;
+                if negative {
+                    x.extend(long_bytes(-count));
+                    x.extend(long_bytes(body.len() as i64));
+                } else {
+                    x.extend(long_bytes(count));
+                }
+                x.extend(body);
+                start = end;
+            }
+            x.push(0);
+            out.push(x);
         }
     }
     out
